@@ -52,9 +52,12 @@ Spec/SuiteName.vos Spec/SuiteName.vok Spec/SuiteName.required_vos: Spec/SuiteNam
 Model/Suite.vo Model/Suite.glob Model/Suite.v.beautified Model/Suite.required_vo: Model/Suite.v Base/Prelude.vo Generated/Tables.vo Generated/Registry.vo Model/Errors.vo Model/Decoder.vo Model/Derive.vo Model/Otp.vo Model/Ocra.vo Model/Utils.vo
 Model/Suite.vio: Model/Suite.v Base/Prelude.vio Generated/Tables.vio Generated/Registry.vio Model/Errors.vio Model/Decoder.vio Model/Derive.vio Model/Otp.vio Model/Ocra.vio Model/Utils.vio
 Model/Suite.vos Model/Suite.vok Model/Suite.required_vos: Model/Suite.v Base/Prelude.vos Generated/Tables.vos Generated/Registry.vos Model/Errors.vos Model/Decoder.vos Model/Derive.vos Model/Otp.vos Model/Ocra.vos Model/Utils.vos
-Model/Runner.vo Model/Runner.glob Model/Runner.v.beautified Model/Runner.required_vo: Model/Runner.v Base/Prelude.vo Hash/Sha.vo Generated/Tables.vo Model/Errors.vo Model/Decoder.vo Model/Derive.vo Model/Otp.vo Model/Ocra.vo Spec/Rfc4226.vo Spec/Rfc6287.vo Spec/Rfc4648.vo Model/Utils.vo Model/Random.vo Model/Suite.vo Spec/SuiteName.vo
-Model/Runner.vio: Model/Runner.v Base/Prelude.vio Hash/Sha.vio Generated/Tables.vio Model/Errors.vio Model/Decoder.vio Model/Derive.vio Model/Otp.vio Model/Ocra.vio Spec/Rfc4226.vio Spec/Rfc6287.vio Spec/Rfc4648.vio Model/Utils.vio Model/Random.vio Model/Suite.vio Spec/SuiteName.vio
-Model/Runner.vos Model/Runner.vok Model/Runner.required_vos: Model/Runner.v Base/Prelude.vos Hash/Sha.vos Generated/Tables.vos Model/Errors.vos Model/Decoder.vos Model/Derive.vos Model/Otp.vos Model/Ocra.vos Spec/Rfc4226.vos Spec/Rfc6287.vos Spec/Rfc4648.vos Model/Utils.vos Model/Random.vos Model/Suite.vos Spec/SuiteName.vos
+Model/Url.vo Model/Url.glob Model/Url.v.beautified Model/Url.required_vo: Model/Url.v Base/Prelude.vo Generated/Tables.vo Model/Errors.vo Model/Decoder.vo Model/Otp.vo Model/Utils.vo Model/Suite.vo
+Model/Url.vio: Model/Url.v Base/Prelude.vio Generated/Tables.vio Model/Errors.vio Model/Decoder.vio Model/Otp.vio Model/Utils.vio Model/Suite.vio
+Model/Url.vos Model/Url.vok Model/Url.required_vos: Model/Url.v Base/Prelude.vos Generated/Tables.vos Model/Errors.vos Model/Decoder.vos Model/Otp.vos Model/Utils.vos Model/Suite.vos
+Model/Runner.vo Model/Runner.glob Model/Runner.v.beautified Model/Runner.required_vo: Model/Runner.v Base/Prelude.vo Hash/Sha.vo Generated/Tables.vo Model/Errors.vo Model/Decoder.vo Model/Derive.vo Model/Otp.vo Model/Ocra.vo Spec/Rfc4226.vo Spec/Rfc6287.vo Spec/Rfc4648.vo Model/Utils.vo Model/Random.vo Model/Suite.vo Spec/SuiteName.vo Model/Url.vo
+Model/Runner.vio: Model/Runner.v Base/Prelude.vio Hash/Sha.vio Generated/Tables.vio Model/Errors.vio Model/Decoder.vio Model/Derive.vio Model/Otp.vio Model/Ocra.vio Spec/Rfc4226.vio Spec/Rfc6287.vio Spec/Rfc4648.vio Model/Utils.vio Model/Random.vio Model/Suite.vio Spec/SuiteName.vio Model/Url.vio
+Model/Runner.vos Model/Runner.vok Model/Runner.required_vos: Model/Runner.v Base/Prelude.vos Hash/Sha.vos Generated/Tables.vos Model/Errors.vos Model/Decoder.vos Model/Derive.vos Model/Otp.vos Model/Ocra.vos Spec/Rfc4226.vos Spec/Rfc6287.vos Spec/Rfc4648.vos Model/Utils.vos Model/Random.vos Model/Suite.vos Spec/SuiteName.vos Model/Url.vos
 Extract/Extract.vo Extract/Extract.glob Extract/Extract.v.beautified Extract/Extract.required_vo: Extract/Extract.v Model/Runner.vo
 Extract/Extract.vio: Extract/Extract.v Model/Runner.vio
 Extract/Extract.vos Extract/Extract.vok Extract/Extract.required_vos: Extract/Extract.v Model/Runner.vos
@@ -109,6 +112,9 @@ Proofs/UtilsProofs.vos Proofs/UtilsProofs.vok Proofs/UtilsProofs.required_vos: P
 Proofs/SuiteProofs.vo Proofs/SuiteProofs.glob Proofs/SuiteProofs.v.beautified Proofs/SuiteProofs.required_vo: Proofs/SuiteProofs.v Base/Prelude.vo Hash/Sha.vo Generated/Tables.vo Generated/Registry.vo Model/Errors.vo Model/Decoder.vo Model/Derive.vo Model/Otp.vo Model/Ocra.vo Model/Utils.vo Model/Suite.vo Spec/Rfc4226.vo Spec/SuiteName.vo Proofs/OcraProofs.vo Proofs/UtilsProofs.vo
 Proofs/SuiteProofs.vio: Proofs/SuiteProofs.v Base/Prelude.vio Hash/Sha.vio Generated/Tables.vio Generated/Registry.vio Model/Errors.vio Model/Decoder.vio Model/Derive.vio Model/Otp.vio Model/Ocra.vio Model/Utils.vio Model/Suite.vio Spec/Rfc4226.vio Spec/SuiteName.vio Proofs/OcraProofs.vio Proofs/UtilsProofs.vio
 Proofs/SuiteProofs.vos Proofs/SuiteProofs.vok Proofs/SuiteProofs.required_vos: Proofs/SuiteProofs.v Base/Prelude.vos Hash/Sha.vos Generated/Tables.vos Generated/Registry.vos Model/Errors.vos Model/Decoder.vos Model/Derive.vos Model/Otp.vos Model/Ocra.vos Model/Utils.vos Model/Suite.vos Spec/Rfc4226.vos Spec/SuiteName.vos Proofs/OcraProofs.vos Proofs/UtilsProofs.vos
+Proofs/UrlProofs.vo Proofs/UrlProofs.glob Proofs/UrlProofs.v.beautified Proofs/UrlProofs.required_vo: Proofs/UrlProofs.v Base/Prelude.vo Generated/Tables.vo Model/Errors.vo Model/Decoder.vo Model/Otp.vo Model/Utils.vo Model/Suite.vo Model/Url.vo Proofs/SuiteProofs.vo
+Proofs/UrlProofs.vio: Proofs/UrlProofs.v Base/Prelude.vio Generated/Tables.vio Model/Errors.vio Model/Decoder.vio Model/Otp.vio Model/Utils.vio Model/Suite.vio Model/Url.vio Proofs/SuiteProofs.vio
+Proofs/UrlProofs.vos Proofs/UrlProofs.vok Proofs/UrlProofs.required_vos: Proofs/UrlProofs.v Base/Prelude.vos Generated/Tables.vos Model/Errors.vos Model/Decoder.vos Model/Otp.vos Model/Utils.vos Model/Suite.vos Model/Url.vos Proofs/SuiteProofs.vos
 Properties/C08.vo Properties/C08.glob Properties/C08.v.beautified Properties/C08.required_vo: Properties/C08.v Base/Prelude.vo Spec/Rfc4648.vo Model/Decoder.vo Model/Random.vo Proofs/Base32Proofs.vo Proofs/UtilsProofs.vo
 Properties/C08.vio: Properties/C08.v Base/Prelude.vio Spec/Rfc4648.vio Model/Decoder.vio Model/Random.vio Proofs/Base32Proofs.vio Proofs/UtilsProofs.vio
 Properties/C08.vos Properties/C08.vok Properties/C08.required_vos: Properties/C08.v Base/Prelude.vos Spec/Rfc4648.vos Model/Decoder.vos Model/Random.vos Proofs/Base32Proofs.vos Proofs/UtilsProofs.vos
